@@ -136,15 +136,15 @@ var CurrentFile string
 
 // PropSpec says how a property uses the sequential engine.
 type PropSpec struct {
-	Profiles []string
-	Classes  []string // mismatch classes that refute the property ("*" = all)
-	OpKinds  []int    // any mismatch of a state class during one of these operations refutes it too
-	OnExpired bool    // ... and so does one during an operation applied to an expired-but-unswept key
-	Quick    int      // cases
-	Thorough int
-	MinOps   int
-	MaxOps   int
-	Rule     string
+	Profiles  []string
+	Classes   []string // mismatch classes that refute the property ("*" = all)
+	OpKinds   []int    // any mismatch of a state class during one of these operations refutes it too
+	OnExpired bool     // ... and so does one during an operation applied to an expired-but-unswept key
+	Quick     int      // cases
+	Thorough  int
+	MinOps    int
+	MaxOps    int
+	Rule      string
 }
 
 var Specs = map[string]*PropSpec{
